@@ -52,6 +52,13 @@ var c15Docs = []string{
 	`<r/>`,
 }
 
+// charset labels: the WHATWG ones, IANA names with and without decoders, and junk
+var c15Charsets = []string{"UTF-8", "utf8", "US-ASCII", "ascii", "ISO-8859-1", "latin1", "ISO-8859-2", "ISO-8859-15", "windows-1252", "windows-1251", "KOI8-R", "KOI8-U", "macintosh", "IBM866",
+	"UTF-16", "UTF-16LE", "UTF-16BE", "UTF-32", "UTF-32BE", "UTF-32LE", "UTF-7", "UTF-1", "ISO-10646-UCS-2", "ISO-10646-UCS-4", "ISO-10646-UTF-1", "UNICODE-1-1", "SCSU", "BOCU-1", "CESU-8",
+	"GB2312", "GBK", "gb18030", "Big5", "Big5-HKSCS", "EUC-JP", "Shift_JIS", "ISO-2022-JP", "ISO-2022-KR", "ISO-2022-CN", "EUC-KR", "HZ-GB-2312", "EBCDIC-US", "IBM037", "IBM437", "IBM850", "IBM1047",
+	"TIS-620", "windows-874", "ISO-8859-16", "ISO-8859-10", "ISO-8859-11", "ISO_8859-1:1987", "csISOLatin1", "x-user-defined", "replacement", "x-mac-cyrillic", "ANSI_X3.4-1968", "ISO646-US",
+	"DEC-MCS", "hp-roman8", "VISCII", "Adobe-Standard-Encoding", "KS_C_5601-1987", "JIS_X0201", "NATS-SEFI", "INVARIANT", "Amiga-1251", "TSCII", "PTCP154", "KZ-1048", "", " ", "x", "nope", "utf-8 ", "\x00"}
+
 var c15Exprs = []string{"/", "//a", "//*[1]", "//a[@id=2]/..", "count(//node())", "sum(//a)", "string(//b)", "//a|//b", "(//a)[last()]/b", "//text()[. > 2]", "name(//*[2])", "//a[position() mod 2 = 1]",
 	"substring(//a, 2, 3)", "translate(//a,'x','y')", "normalize-space(/r)", "lang('en')", "//a/following::node()", "//b/ancestor-or-self::*", "//@*", "//namespace::*", "1 div 0", "-//a", "//a = //b", "boolean(//a) and not(//zz)",
 	"concat(//a, 'x', 1)", "round(-2.5)", "floor(//b)", "$v", "f()", "p:f(1)", "//p:a", "id('x')", "//a[f()]", "string-length()", "//a/string()", "//comment()|//processing-instruction('pi')"}
@@ -116,6 +123,13 @@ func c15Gen(g *rng.R) c15Case {
 		default:
 			return c15Case{"expr/extreme", strings.Repeat("-", n) + "1"}
 		}
+	case k < 46:
+		label := rng.Pick(g, c15Charsets)
+		if g.P(15) {
+			label = mutate(label)
+		}
+		body := rng.Pick(g, []string{"<r/>", "<r>caf\xe9</r>", "<r a='\xa4'>\xc3\xa9</r>", "<r>x</r>"})
+		return c15Case{"xml/encoding-label", "<?xml version=\"1.0\" encoding=\"" + label + "\"?>" + body}
 	case k < 50:
 		return c15Case{"xml/random-bytes", randBytes(g.Range(0, 60))}
 	case k < 60:
